@@ -22,6 +22,7 @@
  ******************************************************************************/
 
 #include <SQuIDS/SUNalg.h>
+#include <algorithm>
 
 #include <ostream>
 #include <complex>
@@ -483,9 +484,42 @@ SU_vector::GetEigenSystem(bool order) const{
   //for every Hermitian input, so it is used for all dimensions.
   {
     auto matrix=(*this).GetGSLMatrix();
+    //gsl_eigen_hermv is not protected against underflow: its Householder steps invert the
+    //squared norm of the remaining column, which for a matrix with entries of order one next
+    //to entries of order eps is of order eps^2, eps^6, eps^8, ... Once such a residue is
+    //subnormal (eps=1e-40 suffices in dimension 6) every eigenvalue and eigenvector is NaN,
+    //and for uniformly tiny matrices the QR iteration may not terminate. So the matrix is
+    //scaled by a power of two (exactly) to bring its largest entry to order one, and parts below
+    //2^-70 of that - a relative perturbation of 1e-21, far below the rounding errors of the
+    //decomposition - are dropped.
+    double amax=0;
+    for(unsigned int i=0; i<dim; i++){
+      for(unsigned int j=0; j<dim; j++){
+        gsl_complex z=gsl_matrix_complex_get(matrix.get(),i,j);
+        amax=std::max(amax,std::max(std::abs(GSL_REAL(z)),std::abs(GSL_IMAG(z))));
+      }
+    }
+    int exponent=0;
+    if(amax>0 && std::isfinite(amax)){
+      std::frexp(amax,&exponent);
+      const double negligible=std::ldexp(1.,-70);
+      for(unsigned int i=0; i<dim; i++){
+        for(unsigned int j=0; j<dim; j++){
+          gsl_complex z=gsl_matrix_complex_get(matrix.get(),i,j);
+          double re=std::ldexp(GSL_REAL(z),-exponent), im=std::ldexp(GSL_IMAG(z),-exponent);
+          if(std::abs(re)<negligible) re=0;
+          if(std::abs(im)<negligible) im=0;
+          gsl_matrix_complex_set(matrix.get(),i,j,gsl_complex_rect(re,im));
+        }
+      }
+    }
     gsl_eigen_hermv_workspace * ws = gsl_eigen_hermv_alloc(dim);
     gsl_eigen_hermv(matrix.get(),eigenvalues,eigenvectors,ws);
     gsl_eigen_hermv_free(ws);
+    if(exponent!=0){
+      for(unsigned int i=0; i<dim; i++)
+        gsl_vector_set(eigenvalues,i,std::ldexp(gsl_vector_get(eigenvalues,i),exponent));
+    }
   }
   // sorting eigenvalues
   if (order)
